@@ -484,6 +484,15 @@ def build(tier, seed):
             for t1 in ms:
                 grids.append(make_case(ems, [t0, t1], 2, [0, 1], seed,
                                        posterior=(len(t0) + len(t1) == 3)))
+    # long series with large / small predictions (the sum of per-measurement terms
+    # stays finite where a product of scales does not)
+    for code in codes:
+        for n_t, amp in ((200, 1e3), (500, 1e3), (500, 1e-3), (120, 1.0)):
+            c = make_case([code], [[0.01 * (k_ + 1) for k_ in range(n_t)]], 1, [0],
+                          seed, tag='L')
+            c['params'] = [amp, 0.05] + c['params'][2:]
+            c['obs'] = [[amp * (0.6 + 0.001 * (k_ % 37)) for k_ in range(n_t)]]
+            grids.append(c)
     # outputs without any measurement (not all of them), first / middle / last
     for ems in itertools.product(codes, repeat=2):
         for t in ms[::2]:
